@@ -120,6 +120,18 @@ def mission_of(fl):
                    arrival=iso_to_timestamp('2024-09-01T18:00:00'), aircraft_type='738', load_factor=fl['lf'])
 
 
+def airport_verdict(fl):
+    """'departure' / 'arrival' if the mission cannot be flown because of the airport elevations (from the harness's
+    own airport table and the ceiling of the table in use), else None"""
+    code_o, code_d = fl['o'], fl['d']
+    if code_o not in c02.AIRPORTS or (code_d not in c02.AIRPORTS and not fl.get('dest_def')):
+        return None
+    o_el = c02.AIRPORTS[code_o][2] * c02.FT
+    d_el = (fl['dest_def'][2] if fl.get('dest_def') else c02.AIRPORTS[code_d][2]) * c02.FT
+    ceiling = ((fl.get('table') or {}).get('ceiling_ft', 41000)) * c02.FT
+    return c02.altitude_verdict(o_el, d_el, ceiling)
+
+
 def snapshot(traj):
     """everything observable of a returned trajectory, bit for bit"""
     import numpy as np
@@ -239,6 +251,13 @@ def gen_flight(rng, opts):
             fl['kind'] = 'valid-given-mass'
             fl['given'] = rng.choice([62000.0, 70000.0, 78000.0])
         return fl
+    if r < 0.49:
+        # arrival airport below the cruise level but less than 3000 ft below it (Denver, 5431 ft, with ceilings of
+        # 13000-15431 ft): the descent target is above the cruise level, the constructor refuses; 15500 ft: flown
+        ceiling = rng.choice([13000, 14000, 15000, 15400, 15431, 15500])
+        return {'kind': 'arrival-within-3000ft-of-cruise' if ceiling <= 15431 else 'valid', 'o': rng.choice(['BOS', 'ORD', 'LAX']),
+                'd': 'DEN', 'lf': 1.0,
+                'table': {'tas': 1.0, 'rocd': 1.0, 'ff': 1.0, 'mass': 1.0, 'ceiling_ft': ceiling, 'payload': 22422}}
     if r < 0.52:
         # an explicit starting mass heavier than the heaviest table mass: refused in the first climb evaluation
         o, d = rng.choice(VALID)
@@ -427,6 +446,14 @@ def check_sequences(chk: Check, seqs, guarded: bool, gfix: bool, wx: Path):
                       if h['code'] == 8 and fl.get('given') is not None and not gfix:
                           sig = FC17A_SIG
                       break
+              # (b') a mission whose departure / arrival level is above the cruise level is refused for that reason
+              verdict = airport_verdict(fl)
+              if verdict is not None and not (h['kind'] == 'raised' and h['code'] == 2):
+                  bad = (f"flight {j} ({fl['kind']}): the {verdict} airport's level is above the cruise level, but the mission is "
+                         + ('flown' if h['kind'] == 'flown' else f"refused with {h['exc'][0]}: {h['exc'][1]!r}"))
+                  if h['kind'] == 'attrctx' and not guarded:
+                      sig = F15_SIG
+                  break
               # (d) mass iteration
               if h['kind'] == 'flown' and opts['iterate'] and not (h['leftover'] < opts['reltol']):
                   bad = (f"flight {j} ({fl['kind']}): returned with leftover trip fuel {h['leftover']:.3e} of the fuel load, "
